@@ -202,16 +202,34 @@ func (pool *BlockPool) PopRequest() {
 // Invalidates the block at pool.height,
 // Remove the peer and redo request from others.
 func (pool *BlockPool) RedoRequest(height int64) {
-	pool.mtx.Lock()
-	request := pool.requesters[height]
-	pool.mtx.Unlock()
+	pool.RedoRequests(height)
+}
 
-	if request.block == nil {
-		gcmn.PanicSanity("Expected block to be non-nil")
+// RedoRequests invalidates the blocks at the given heights: the peers that served them are
+// removed, each once, and all their requests are made again.
+func (pool *BlockPool) RedoRequests(heights ...int64) {
+	var peerIDs []string
+	pool.mtx.Lock()
+	for _, height := range heights {
+		request := pool.requesters[height]
+		if request == nil || request.getBlock() == nil {
+			continue
+		}
+		peerID := request.getPeerID()
+		known := peerID == ""
+		for _, id := range peerIDs {
+			known = known || id == peerID
+		}
+		if !known {
+			peerIDs = append(peerIDs, peerID)
+		}
 	}
+	pool.mtx.Unlock()
 	// RemovePeer will redo all requesters associated with this peer.
 	// TODO: record this malfeasance
-	pool.RemovePeer(request.peerID)
+	for _, peerID := range peerIDs {
+		pool.RemovePeer(peerID)
+	}
 }
 
 // TODO: ensure that blocks come in order for each peer.
